@@ -105,3 +105,15 @@ claim("C07",
       "Does not decide finite-difference agreement or Hessian symmetry numerically. Trusted: sympy (with a 60-digit random-point "
       "identity test where radicals do not normalise), frozen inventory of accepted cuts (each with a reason).",
       "DESIGN.md section 4, C07")
+
+claim("C15",
+      "effect / mod-ref inventory: class-level and module-level mutable state, cache-key completeness, taint classification of stores into "
+      "caller settings dictionaries, sibling agreement of the parameter preparers, mutable-default writers, process-global setters",
+      "Decides absence of hidden persistent state by exhaustively inventorying where state that outlives a call can be written: "
+      "autograd Functions keep nothing on the class that a later pass reads; the only module-level mutable objects written inside "
+      "functions are three caches whose keys contain every input of the cached value and whose id() bases are immortal constants; "
+      "every store into a caller's settings dictionary is configuration-derived (one recorded known finding: 'elements'); optional "
+      "parameter keys cannot be persisted, sibling preparers reset the same keys; process-global setters are a fixed list.",
+      "Does not decide thread-count independence or bitwise repeatability (floating-point reduction order is a run-time fact). "
+      "Trusted: the frozen inventories with reasons; single-threaded Python driver.",
+      "DESIGN.md section 4, C15")
